@@ -31,7 +31,9 @@ RULE = (
     "first add's destinations, each delivered message carrying all global fields set before its delivery (latest value), "
     "nothing after removal. Facet handover: interleavings at source-line and bytecode-instruction granularity (generated plans; complete "
     "enumeration of single-preemption schedules) of 1-2 logging threads against the thread doing the first add(d1, d2[, d3]); "
-    "oracle: every logged message received exactly once by every destination. Non-trivial (history): >= 2 adds, a remove "
+    "oracle: every logged message received exactly once by every destination, also the ones logged sequentially afterwards; in a "
+    "third of the cases the raced call is a later add_destinations (first add done beforehand): its destinations get nothing logged "
+    "before, nothing twice, and everything logged after it returned. Non-trivial (history): >= 2 adds, a remove "
     "and buffered messages, or > 1000 buffered; (handover): a schedule that switches threads inside send or add. "
     "Distinct = canonical JSON of the case."
 )
@@ -339,6 +341,10 @@ def run_handover(case, dest_factory=None):
             log_message(message_type="c12:pre", who="pre.%d" % k)
             logged.append("pre.%d" % k)
 
+        second = bool(case.get("second_add")) and len(dests) >= 2
+        if second:
+            # the first add happens beforehand; the raced call is a later add_destinations
+            fresh.add(dests[0])
         removed_at = {}
         clock = [0]
         started = {}
@@ -348,7 +354,7 @@ def run_handover(case, dest_factory=None):
             return clock[0]
 
         def adder():
-            fresh.add(*dests)
+            fresh.add(*(dests[1:] if second else dests))
             if case.get("remove_after_add") and len(dests) >= 2:
                 fresh.remove(dests[0])
                 removed_at[0] = (len(received[0]), tick())
@@ -379,8 +385,13 @@ def run_handover(case, dest_factory=None):
                 logged.append("t%d.%d" % (tid, k))
         s = sched.Scheduler(("eliot/_output.py",), case["plan"], opcodes=bool(case.get("opcodes")))
         s.run(fns)
+        # afterwards, sequentially: every registered destination is offered every further message once
+        for k in range(2):
+            log_message(message_type="c12:post", who="post.%d" % k)
+            logged.append("post.%d" % k)
     finally:
         Logger._destinations = saved
+    s.second = second
     s.removed_at = removed_at
     s.started = started
     return s, received, logged
@@ -415,9 +426,10 @@ def check_handover(case):
         if i == 0 and 0 in s.removed_at:
             continue
         uu = {}
-        for m in lst:
-            if m.get("who", "").endswith(".start"):
-                uu[m["task_uuid"]] = m["who"][:-6]
+        for other in received:
+            for m in other:
+                if m.get("who", "").endswith(".start"):
+                    uu[m["task_uuid"]] = m["who"][:-6]
         keys = []
         for m in lst:
             if m.get("who"):
@@ -430,7 +442,14 @@ def check_handover(case):
         for k in keys:
             counts[k] = counts.get(k, 0) + 1
         dup = sorted(k for k, c in counts.items() if c > 1)
-        missing = sorted(k for k in logged if k not in counts)
+        must = logged
+        if s.second and i >= 1:
+            # registered by the raced (second) add: messages logged concurrently with it may or may not arrive, the
+            # ones logged before the first add must not, the ones logged after it returned must
+            must = [k for k in logged if k.startswith("post.")]
+            early = sorted(k for k in counts if k.startswith("pre."))
+            require(not early, "delivered-before-registration", lambda: "destination %d (added later) received %r, logged before its registration" % (i, early))
+        missing = sorted(k for k in must if k not in counts)
         extra = sorted(k for k in counts if k not in logged)
         require(not missing, "message-lost", lambda: "destination %d never received %r (received %r)" % (i, missing, keys))
         require(not dup, "message-duplicated", lambda: "destination %d received %r more than once (received %r)" % (i, dup, keys))
@@ -444,6 +463,7 @@ def classify_handover(case, info):
     if info["switch_inside"]:
         labels.append("preempted-inside-send-or-add")
     labels.append("granularity:bytecode" if case.get("opcodes") else "granularity:line")
+    labels.append("raced-call:later-add" if case.get("second_add") and info["ndest"] >= 2 else "raced-call:first-add")
     return info["switch_inside"] >= 1, labels
 
 
@@ -451,7 +471,8 @@ def handover_strategy():
     from .. import sched
 
     return st.builds(
-        lambda opc, pre, ndest, rem, plan, loggers: sched.with_granularity({"pre": pre, "ndest": ndest, "remove_after_add": rem, "plan": plan, "loggers": loggers}, opc),
+        lambda second, opc, pre, ndest, rem, plan, loggers: sched.with_granularity({"second_add": second, "pre": pre, "ndest": ndest, "remove_after_add": rem, "plan": plan, "loggers": loggers}, opc),
+        st.sampled_from([False, False, True]),
         st.sampled_from([False, False, True]),
         st.integers(0, 2),
         st.integers(1, 3),
@@ -476,6 +497,9 @@ def handover_enum_runner(mod, facet, tier, seed, shard, nshards, stats):
     for ndest in (2,):
         for plan in sched.double_preemption_plans(2, depth, stride):
             cases.append({"pre": 1, "ndest": ndest, "plan": plan, "loggers": [[1, 0]]})
+    # a later add_destinations racing a logging thread (the first add was done before)
+    for plan in sched.single_preemption_plans(2, depth):
+        cases.append({"second_add": True, "pre": 1, "ndest": 2, "plan": plan, "loggers": [[2, 0]]})
     # bytecode granularity: either thread preempted before every instruction, once
     for pre in (0, 1):
         for a, b in ((0, 1), (1, 0)):
